@@ -158,6 +158,8 @@ GEN = {
                                       "http://" + _host(r) + "#frag", "HTTP://" + _host(r).upper() + "/", "http://" + _host(r) + "?", "https://" + _host(r) + "/%41%c3%a9",
                                       "http://xn--bcher-kva.example/", "http://bücher.example/", "http://" + _host(r) + "/\\path", "http://a..b/", "http://-a.b/",
                                       "https://" + "a" * 300 + ".example/"]),
+    "URI_BRACKETS": lambda r: r.choice(["http://[::1/x", "https://::1]/x", "ftp://[not-an-address]/", "http://[192.168.0.1]/", "//[", "http://[", "http://]", "http://[]/", "https://[::1]]/",
+                                        "http://[v1.x]/", "http://[::1]:80:80/", "http://a]b/", "http://[" + _word(r) + "]/", "ftp://[" + ":" * r.randint(1, 9) + "/"]),
     "LENIENT_INT": lambda r: r.choice(["+5", "007", "1_0", " 5", "5 ", "٣", "-0", "+0", "\t12\n"]),
     "LENIENT_FLOAT": lambda r: r.choice([".5", "5.", " 1.5 ", "1_0.5", "+1.5", "1e+2", "1.e2", "-.5", "٣.٥"]),
     "LENIENT_TIME": lambda r: r.choice(["12:30", "T12:30:00", "24:00:00", "123045", "12:30:45Z", "12:30:45+01:00", "12", "12:30:45,5"]),
